@@ -22,12 +22,12 @@ type ScriptTransport struct {
 
 	open        bool
 	readWaiting int // readers parked in Read waiting for bytes
-	gen     int // incremented by every successful Open
-	inbuf   []byte
-	inErr   error // delivered once inbuf is drained (sticky until next Open)
-	outbuf  []byte
-	OnFrame func(frame []byte) // called (outside the lock) for every complete frame flushed by the client
-	OnWrite func(n int)        // called for every Write (outside the lock)
+	gen         int // incremented by every successful Open
+	inbuf       []byte
+	inErr       error // delivered once inbuf is drained (sticky until next Open)
+	outbuf      []byte
+	OnFrame     func(frame []byte) // called (outside the lock) for every complete frame flushed by the client
+	OnWrite     func(n int)        // called for every Write (outside the lock)
 
 	// counters
 	Opens, OpenCalls, Closes, Reads, Writes, Flushes int
